@@ -2,6 +2,8 @@
 #![allow(clippy::too_many_arguments, clippy::type_complexity)]
 
 mod ju;
+mod mirror;
+mod oracle;
 mod probe;
 mod props;
 mod rt;
